@@ -164,28 +164,67 @@ theorem fanout_eq_self (enabled : List Bool) (subs : List (List Nat)) (ss : List
 
 /-! ### `step` on a frame -/
 
-theorem step_frame_ok {s s' : St} {fl : Nat} {ss : List Smp} (h : step s (.frame fl ss) = .ok s') :
-    ss.any (fun x => x.chan ≥ s.enabled.length) = false ∧
-    s' = { s with ovf := if fl % 2 = 1 then s.ovf + 1 else s.ovf,
-                  queues := fanout s.enabled s.subs ss 0 s.enabled.length s.queues } := by
-  rw [step] at h
-  by_cases hg : ss.any (fun x => x.chan ≥ s.enabled.length) = true
-  · rw [if_pos hg] at h; cases h
-  · rw [if_neg hg] at h
-    refine ⟨by simpa using hg, ?_⟩
-    injection h with h; exact h.symm
+theorem step_frame_dead {s : St} (fl : Nat) (ss : List Smp) (hd : s.dead = true) :
+    step s (.frame fl ss) = .ok s := by
+  rw [step, if_pos hd]
 
-theorem step_frame_of_lt (s : St) (fl : Nat) (ss : List Smp) (h : ∀ x ∈ ss, x.chan < s.enabled.length) :
+theorem step_frame_bad {s : St} (fl : Nat) (ss : List Smp) (hd : s.dead = false)
+    (h : ss.any (fun x => x.chan ≥ s.enabled.length) = true) :
+    step s (.frame fl ss) = .ok { s with dead := true } := by
+  rw [step, if_neg (by simp [hd]), if_pos h]
+
+theorem step_frame_good {s : St} (fl : Nat) (ss : List Smp) (hd : s.dead = false)
+    (h : ss.any (fun x => x.chan ≥ s.enabled.length) = false) :
     step s (.frame fl ss) =
       .ok { s with ovf := if fl % 2 = 1 then s.ovf + 1 else s.ovf,
                    queues := fanout s.enabled s.subs ss 0 s.enabled.length s.queues } := by
-  rw [step]
-  have hg : ¬ ss.any (fun x => x.chan ≥ s.enabled.length) = true := by
-    simp only [List.any_eq_true, decide_eq_true_eq]
-    intro ⟨x, hx, hge⟩
-    have := h x hx
-    omega
-  rw [if_neg hg]
+  rw [step, if_neg (by simp [hd]), if_neg (by simp [h])]
+
+/-- the three outcomes of a frame: not processed (thread dead), kills the thread, fanned out -/
+theorem step_frame_cases (s : St) (fl : Nat) (ss : List Smp) :
+    (s.dead = true ∧ step s (.frame fl ss) = .ok s) ∨
+    (s.dead = false ∧ ss.any (fun x => x.chan ≥ s.enabled.length) = true ∧
+      step s (.frame fl ss) = .ok { s with dead := true }) ∨
+    (s.dead = false ∧ ss.any (fun x => x.chan ≥ s.enabled.length) = false ∧
+      step s (.frame fl ss) =
+        .ok { s with ovf := if fl % 2 = 1 then s.ovf + 1 else s.ovf,
+                     queues := fanout s.enabled s.subs ss 0 s.enabled.length s.queues }) := by
+  rcases Bool.eq_false_or_eq_true s.dead with hd | hd
+  · exact Or.inl ⟨hd, step_frame_dead fl ss hd⟩
+  · rcases Bool.eq_false_or_eq_true (ss.any (fun x => x.chan ≥ s.enabled.length)) with h | h
+    · exact Or.inr (Or.inl ⟨hd, h, step_frame_bad fl ss hd h⟩)
+    · exact Or.inr (Or.inr ⟨hd, h, step_frame_good fl ss hd h⟩)
+
+theorem any_ge_false_of_lt {ss : List Smp} {n : Nat} (h : ∀ x ∈ ss, x.chan < n) :
+    ss.any (fun x => x.chan ≥ n) = false := by
+  rw [List.any_eq_false]
+  intro x hx
+  have := h x hx
+  simp only [decide_eq_true_eq]; omega
+
+theorem step_frame_of_lt (s : St) (fl : Nat) (ss : List Smp) (hd : s.dead = false)
+    (h : ∀ x ∈ ss, x.chan < s.enabled.length) :
+    step s (.frame fl ss) =
+      .ok { s with ovf := if fl % 2 = 1 then s.ovf + 1 else s.ovf,
+                   queues := fanout s.enabled s.subs ss 0 s.enabled.length s.queues } :=
+  step_frame_good fl ss hd (any_ge_false_of_lt h)
+
+/-- a frame never makes a call fail -/
+theorem step_frame_isOk (s : St) (fl : Nat) (ss : List Smp) : ∃ s', step s (.frame fl ss) = .ok s' := by
+  rcases step_frame_cases s fl ss with ⟨_, h⟩ | ⟨_, _, h⟩ | ⟨_, _, h⟩ <;> exact ⟨_, h⟩
+
+/-! ### `apply` / `run` -/
+
+theorem run_cons (s : St) (op : Op) (r : List Op) : run s (op :: r) = run (apply s op) r := by
+  rw [run, apply]; cases step s op <;> rfl
+
+theorem run_append (s : St) (a b : List Op) : run s (a ++ b) = run (run s a) b := by
+  induction a generalizing s with
+  | nil => rfl
+  | cons op r ih => rw [List.cons_append, run_cons, run_cons, ih]
+
+theorem run_singleton (s : St) (op : Op) : run s [op] = apply s op := by
+  rw [run_cons]; rfl
 
 /-! ### `received` -/
 
@@ -263,28 +302,43 @@ def GroupsNonempty (s : St) : Prop := ∀ e ∈ s.queues, ∀ g ∈ e.2, g ≠ [
 theorem groupsNonempty_init (n : Nat) : GroupsNonempty (St.init n) := by
   intro e he; cases he
 
+theorem groupsNonempty_subAt {s : St} (hs : GroupsNonempty s) (ch : Nat) : GroupsNonempty (subAt s ch) := by
+  intro e he g hg
+  simp only [subAt, List.mem_append, List.mem_singleton] at he
+  rcases he with he | rfl
+  · exact hs e he g hg
+  · cases hg
+
 theorem groupsNonempty_step {s s' : St} {op : Op} (hs : GroupsNonempty s) (h : step s op = .ok s') :
     GroupsNonempty s' := by
   cases op with
   | frame fl ss =>
-    obtain ⟨_, rfl⟩ := step_frame_ok h
-    intro e he g hg
-    simp only [fanout_eq_map, List.mem_map] at he
-    obtain ⟨e0, he0, rfl⟩ := he
-    rw [List.mem_append] at hg
-    rcases hg with hg | hg
-    · exact hs e0 he0 g hg
-    · exact extra_mem_ne_nil _ _ _ _ _ _ g hg
+    rcases step_frame_cases s fl ss with ⟨_, h'⟩ | ⟨_, _, h'⟩ | ⟨_, _, h'⟩
+    · rw [h'] at h; injection h with h; subst h; exact hs
+    · rw [h'] at h; injection h with h; subst h; exact hs
+    · rw [h'] at h; injection h with h; subst h
+      intro e he g hg
+      simp only [fanout_eq_map, List.mem_map] at he
+      obtain ⟨e0, he0, rfl⟩ := he
+      rw [List.mem_append] at hg
+      rcases hg with hg | hg
+      · exact hs e0 he0 g hg
+      · exact extra_mem_ne_nil _ _ _ _ _ _ g hg
+  | badFrame =>
+    rw [step] at h; injection h with h; subst h; exact hs
   | sub ch =>
     rw [step] at h
     by_cases hc : ch < s.subs.length
     · rw [if_pos hc] at h
       injection h with h; subst h
-      intro e he g hg
-      simp only [List.mem_append, List.mem_singleton] at he
-      rcases he with he | rfl
-      · exact hs e he g hg
-      · cases hg
+      exact groupsNonempty_subAt hs ch
+    · rw [if_neg hc] at h; cases h
+  | subNeg k =>
+    rw [step] at h
+    by_cases hc : k < s.subs.length
+    · rw [if_pos hc] at h
+      injection h with h; subst h
+      exact groupsNonempty_subAt hs _
     · rw [if_neg hc] at h; cases h
   | unsub k =>
     rw [step] at h
@@ -297,6 +351,8 @@ theorem groupsNonempty_step {s s' : St} {op : Op} (hs : GroupsNonempty s) (h : s
       injection h with h; subst h
       exact hs
     · rw [if_neg hc] at h; cases h
+  | restart =>
+    rw [step] at h; injection h with h; subst h; exact hs
 
 theorem groupsNonempty_run (s : St) (ops : List Op) (hs : GroupsNonempty s) :
     GroupsNonempty (run s ops) := by
@@ -307,6 +363,161 @@ theorem groupsNonempty_run (s : St) (ops : List Op) (hs : GroupsNonempty s) :
     cases h : step s op with
     | ok s' => exact ih s' (groupsNonempty_step hs h)
     | error e => exact ih s hs
+
+/-! ### the decoded samples of stream frames (`tagged`, `opsOfFrames`) -/
+
+theorem bind_eq_ok {α β : Type} {x : Except Err α} {f : α → Except Err β} {b : β}
+    (h : x.bind f = .ok b) : ∃ a, x = .ok a ∧ f a = .ok b := by
+  cases x with
+  | error e => cases h
+  | ok a => exact ⟨a, rfl, h⟩
+
+theorem bind_eq_ok_iff {α β : Type} {x : Except Err α} {f : α → Except Err β} {b : β} :
+    x.bind f = .ok b ↔ ∃ a, x = .ok a ∧ f a = .ok b := by
+  constructor
+  · exact bind_eq_ok
+  · rintro ⟨a, rfl, h⟩; exact h
+
+theorem exists_ok_of {α : Type} {x : Except Err α}
+    (h : (match x with | .ok _ => true | .error _ => false) = true) : ∃ r, x = .ok r := by
+  cases x with
+  | ok r => exact ⟨r, rfl⟩
+  | error e => cases h
+
+/-- the decoder only returns samples of channels the device has (robust against the number of
+    intermediate results the decoder binds: format, values, data, metadata) -/
+theorem decodeOne_chan {layout : List Stream.Chan} {user : List Stream.UserType} {rest rest' : Bytes}
+    {s : Stream.Sample} (h : Stream.decodeOne layout user rest = .ok (s, rest')) :
+    s.chan < layout.length := by
+  unfold Stream.decodeOne at h
+  cases rest with
+  | nil => cases h
+  | cons cid r1 =>
+    simp only at h
+    cases hl : layout[cid.toNat]? with
+    | none => rw [hl] at h; cases h
+    | some ch =>
+      rw [hl] at h
+      simp only at h
+      obtain ⟨d, _, h⟩ := bind_eq_ok h
+      split at h
+      · cases h
+      · have hlt : cid.toNat < layout.length := (List.getElem?_eq_some_iff.mp hl).1
+        revert h
+        simp only [bind_eq_ok_iff, Except.ok.injEq, Prod.mk.injEq, forall_exists_index, and_imp]
+        intros
+        subst_vars
+        exact hlt
+
+theorem decodeLoop_chan {layout : List Stream.Chan} {user : List Stream.UserType} (fuel : Nat) {rest : Bytes}
+    {ss : List Stream.Sample} (h : Stream.decodeLoop layout user fuel rest = .ok ss) :
+    ∀ s ∈ ss, s.chan < layout.length := by
+  induction fuel generalizing rest ss with
+  | zero =>
+    cases rest with
+    | nil => rw [Stream.decodeLoop] at h; injection h with h; subst h; intro s hs; cases hs
+    | cons b r => rw [Stream.decodeLoop] at h; cases h
+  | succ fuel ih =>
+    cases rest with
+    | nil => rw [Stream.decodeLoop] at h; injection h with h; subst h; intro s hs; cases hs
+    | cons b r =>
+      rw [Stream.decodeLoop] at h
+      rotate_left
+      · intro hh; cases hh
+      obtain ⟨⟨s1, rest'⟩, h1, h⟩ := bind_eq_ok h
+      obtain ⟨ss', h2, h⟩ := bind_eq_ok h
+      injection h with h; subst h
+      intro s hs
+      rcases List.mem_cons.mp hs with rfl | hs
+      · exact decodeOne_chan h1
+      · exact ih h2 s hs
+
+theorem frameStreamDecode_chan {layout : List Stream.Chan} {user : List Stream.UserType} {fr : Serial.Frame}
+    {fl : Nat} {ss : List Stream.Sample}
+    (h : Stream.frameStreamDecode layout user fr = .ok (some (fl, ss))) : ∀ s ∈ ss, s.chan < layout.length := by
+  unfold Stream.frameStreamDecode at h
+  split at h
+  · cases h
+  · unfold Stream.streamDecode at h
+    split at h
+    · cases h
+    · obtain ⟨ss', h1, h⟩ := bind_eq_ok h
+      injection h with h; injection h with h; injection h with _ h; subst h
+      exact decodeLoop_chan _ h1
+
+theorem tagged_append (k : Nat) (a b : List Stream.Sample) :
+    tagged k (a ++ b) = tagged k a ++ tagged (k + a.length) b := by
+  induction a generalizing k with
+  | nil => simp [tagged]
+  | cons s a ih =>
+    simp only [List.cons_append, tagged, ih, List.length_cons]
+    rw [show k + 1 + a.length = k + (a.length + 1) by omega]
+
+/-- the tag of a sample is its position: the `j`-th sample gets `val = k + j` and keeps its channel -/
+theorem tagged_getElem? (k j : Nat) (ss : List Stream.Sample) :
+    (tagged k ss)[j]? = ss[j]?.map fun s => ⟨s.chan, k + j⟩ := by
+  induction ss generalizing k j with
+  | nil => simp [tagged]
+  | cons s r ih =>
+    cases j with
+    | zero => simp [tagged]
+    | succ j => simp only [tagged, List.getElem?_cons_succ, ih]; congr; funext s; congr 1; omega
+
+theorem mem_tagged {k : Nat} {ss : List Stream.Sample} {x : Smp} (h : x ∈ tagged k ss) :
+    ∃ s ∈ ss, x.chan = s.chan := by
+  induction ss generalizing k with
+  | nil => simp [tagged] at h
+  | cons s r ih =>
+    simp only [tagged, List.mem_cons] at h
+    rcases h with rfl | h
+    · exact ⟨s, by simp, rfl⟩
+    · obtain ⟨s', hs', he⟩ := ih h
+      exact ⟨s', by simp [hs'], he⟩
+
+/-- frames the decoder accepts become well-formed `frame` ops -/
+theorem opsOfFrames_wf (layout : List Stream.Chan) (user : List Stream.UserType) (k : Nat)
+    (frs : List Serial.Frame) (h : ∀ fr ∈ frs, ∃ r, Stream.frameStreamDecode layout user fr = .ok r) :
+    ∀ op ∈ opsOfFrames layout user k frs, op.wfFrame layout.length = true := by
+  induction frs generalizing k with
+  | nil => intro op hop; cases hop
+  | cons fr r ih =>
+    have hr : ∀ fr ∈ r, ∃ x, Stream.frameStreamDecode layout user fr = .ok x :=
+      fun f hf => h f (List.mem_cons_of_mem _ hf)
+    obtain ⟨x, hx⟩ := h fr List.mem_cons_self
+    intro op hop
+    rw [opsOfFrames, hx] at hop
+    cases x with
+    | none =>
+      rcases List.mem_cons.mp hop with rfl | hop
+      · rfl
+      · exact ih k hr op hop
+    | some p =>
+      obtain ⟨fl, ss⟩ := p
+      rcases List.mem_cons.mp hop with rfl | hop
+      · simp only [Op.wfFrame, List.all_eq_true, decide_eq_true_eq]
+        intro y hy
+        obtain ⟨s, hs, he⟩ := mem_tagged hy
+        rw [he]; exact frameStreamDecode_chan hx s hs
+      · exact ih _ hr op hop
+
+/-- what the ops of a frame sequence carry for channel `c`: the positions of the `c`-samples among
+    all decoded samples, ascending -/
+theorem flatMap_opsOfFrames (layout : List Stream.Chan) (user : List Stream.UserType) (c k : Nat)
+    (frs : List Serial.Frame) :
+    (opsOfFrames layout user k frs).flatMap (Op.samplesOf c)
+      = ((tagged k (samplesOfFrames layout user frs)).filter (·.chan = c)).map (·.val) := by
+  induction frs generalizing k with
+  | nil => rfl
+  | cons fr r ih =>
+    rw [opsOfFrames, samplesOfFrames]
+    cases hx : Stream.frameStreamDecode layout user fr with
+    | error e => simp only [List.flatMap_cons, Op.samplesOf, List.nil_append, ih]
+    | ok x =>
+      cases x with
+      | none => simp [List.flatMap_cons, Op.samplesOf, ih]
+      | some p =>
+        obtain ⟨fl, ss⟩ := p
+        simp only [List.flatMap_cons, Op.samplesOf, ih, tagged_append, List.filter_append, List.map_append]
 
 end Fanout
 end Nxs
